@@ -383,35 +383,62 @@ func ruleSkipShape(c *Ctx) {
 		c.saw(fn)
 		noResolve, onlyRef, returnsTarget := true, true, false
 		why := ""
-		for _, s := range stmts {
-			ast.Inspect(s, func(m ast.Node) bool {
-				if call, ok := m.(*ast.CallExpr); ok {
-					if g, ok := c.callee(call).(*types.Func); ok && g.Pkg() == c.Types && reachesResolve(g) {
-						noResolve = false
-						why = "the skip-schemas branch calls " + funcDisplay(g) + ", which resolves references"
+		var shape func(hfd *ast.FuncDecl, htarget types.Object, hstmts []ast.Node, depth int)
+		shape = func(hfd *ast.FuncDecl, htarget types.Object, hstmts []ast.Node, depth int) {
+			for _, s := range hstmts {
+				ast.Inspect(s, func(m ast.Node) bool {
+					if call, ok := m.(*ast.CallExpr); ok {
+						if g, ok := c.callee(call).(*types.Func); ok && g.Pkg() == c.Types && reachesResolve(g) {
+							noResolve = false
+							why = "the skip-schemas branch calls " + funcDisplay(g) + ", which resolves references"
+						}
 					}
-				}
-				return true
-			})
-			switch x := s.(type) {
-			case *ast.AssignStmt:
-				for _, l := range x.Lhs {
-					if id, ok := unparen(l).(*ast.Ident); ok && c.objOf(id) != target {
-						continue
+					return true
+				})
+				switch x := s.(type) {
+				case *ast.AssignStmt:
+					for _, l := range x.Lhs {
+						if id, ok := unparen(l).(*ast.Ident); ok && c.objOf(id) != htarget {
+							continue
+						}
+						if p, ok := c.apath(l); ok && p.Root == htarget && lastStep(p) == "Ref" {
+							continue
+						}
+						onlyRef = false
 					}
-					if p, ok := c.apath(l); ok && p.Root == target && lastStep(p) == "Ref" {
-						continue
+				case *ast.ReturnStmt:
+					if len(x.Results) == 2 && isNilIdent(c, x.Results[1]) {
+						if p, ok := c.apath(x.Results[0]); ok && p.Root == htarget && len(p.Steps) == 0 {
+							returnsTarget = true
+						}
 					}
-					onlyRef = false
-				}
-			case *ast.ReturnStmt:
-				if len(x.Results) == 2 && isNilIdent(c, x.Results[1]) {
-					if p, ok := c.apath(x.Results[0]); ok && p.Root == target && len(p.Steps) == 0 {
-						returnsTarget = true
+					// return helper(target, ...): the helper's body is the skip branch
+					if len(x.Results) == 1 && depth < 2 {
+						if call, ok := unparen(x.Results[0]).(*ast.CallExpr); ok {
+							if g, ok := c.callee(call).(*types.Func); ok && g.Pkg() == c.Types && !reachesResolve(g) {
+								if gfd := c.decl(g); gfd != nil && gfd.Body != nil {
+									for ai, a := range call.Args {
+										if id, ok := unparen(a).(*ast.Ident); ok && c.objOf(id) == htarget {
+											var gst []ast.Node
+											ast.Inspect(gfd.Body, func(n ast.Node) bool {
+												switch n.(type) {
+												case *ast.AssignStmt, *ast.ReturnStmt, *ast.ExprStmt:
+													gst = append(gst, n)
+												}
+												return true
+											})
+											c.saw(c.funcName(gfd))
+											shape(gfd, c.paramObj(gfd, ai), gst, depth+1)
+										}
+									}
+								}
+							}
+						}
 					}
 				}
 			}
 		}
+		shape(fd, target, stmts, 0)
 		c.ob(rule, fn+":no-resolution", fd.Pos(), noResolve, why)
 		c.ob(rule, fn+":only-ref-changed", fd.Pos(), onlyRef, "in skip-schemas mode a schema with a $ref must be returned with nothing but its Ref rewritten")
 		c.ob(rule, fn+":returns-target", fd.Pos(), returnsTarget, "the skip-schemas branch must return the target schema itself with a nil error")
